@@ -51,6 +51,15 @@ def draw_config(rng, g, tier):
     return kind, threads, fpg, experiments, opts
 
 
+def _stall_faults(r):
+    """Slow workers: in about a third of the schedules the thread that is running at some step is
+    kept off the processor for 50..20000 scheduler steps (one or two such stalls)."""
+    if r.random() >= 0.35:
+        return []
+    return [f"stall@step={r.randint(1, 1500)}@{r.choice([50, 500, 5000, 20000])}"
+            for _ in range(r.randint(1, 2))]
+
+
 def run_job(job):
     """job: dict(prop, seed, index, tier, schedules, size, replay=None). Returns a result dict."""
     seed, index = job["seed"], job["index"]
@@ -71,14 +80,15 @@ def run_job(job):
             strategy = sched_rng.choice(STRATEGIES)
             pseed = sched_rng.getrandbits(48)
             verify_alloc = sched_rng.random() < 0.1
+            faults = _stall_faults(rng_for("graph-stall", seed, index, s))
             if only is not None and s != only:
                 continue
-            plan = Plan(pseed, strategy, log_level=1)
+            plan = Plan(pseed, strategy, faults=faults, log_level=1)
             if job.get("decisions") is not None:
                 dpath = os.path.join(workdir, f"decisions_in_{s}.txt")
                 with open(dpath, "w") as fh:
                     fh.write("\n".join(str(x) for x in job["decisions"]) + "\n")
-                plan = Plan(pseed, "replay", log_level=1, decisions_in=dpath)
+                plan = Plan(pseed, "replay", faults=faults, log_level=1, decisions_in=dpath)
             out = os.path.join(workdir, f"out{s}")
             argv = gen_graph.link_args(g, objs, out, kind=kind, gc=True)
             argv += [f"--threads={threads}", "--no-fork"] + opts
@@ -104,6 +114,10 @@ def run_job(job):
             c = res["counters"]
             c[f"kind_{kind}"] = c.get(f"kind_{kind}", 0) + 1
             c[f"threads_{threads}"] = c.get(f"threads_{threads}", 0) + 1
+            if faults:
+                c["fault_configured_stall"] = c.get("fault_configured_stall", 0) + len(faults)
+                c["fault_fired_stall"] = c.get("fault_fired_stall", 0) + \
+                    sum(1 for f in r.summary.get("faults_fired", []) if "Stall" in f)
             c[f"strategy_{strategy.split(':')[0]}"] = c.get(f"strategy_{strategy.split(':')[0]}", 0) + 1
             if int(r.summary.get("switches", 0)) > 0:
                 res["distinct"].append(f"{index}:{r.trace_hash}")
